@@ -199,7 +199,8 @@ def index_exhaustive(shapes, L):
 
 # ------------------------------------------------------------------ generic trait layer (C09)
 
-T_OPS = {"push", "pop", "insert", "remove", "swap_remove", "replace", "truncate", "clear", "append", "split_off"}
+T_OPS = {"push", "pop", "insert", "remove", "swap_remove", "replace", "truncate", "clear", "append", "split_off",
+         "reserve", "reserve_exact", "shrink_to_fit", "capacity", "with_capacity"}
 
 
 def to_trait(sc):
